@@ -30,9 +30,7 @@ structure Position where
   game : Game
   pos : Rules.Pos
 
-def toRulesPos (g : Game) : Rules.Pos :=
-  { board := g.board.squares, player := g.player, rights := g.rights, ep := g.ep,
-    halfmove := g.halfmove, plies := g.plies }
+def toRulesPos (g : Game) : Rules.Pos := Rules.ofGame g
 
 def readPosition (text : String) : Option Position :=
   match Fen.parse theCfg text with
